@@ -96,6 +96,38 @@ func init() {
 			{Name: "handler passes the local id", ExpectRule: "C10.R5", ExpectKey: "routing.Table", Edits: []Edit{
 				{File: aa, Old: "\ta.routeMgr.HandlePeerDisconnect(peerID)\n", New: "\ta.routeMgr.HandlePeerDisconnect(a.id)\n"},
 			}},
+			{Name: "round2: lock released between the comparison and the overwrite (ForwardTable)", ExpectRule: "C10.R1", ExpectKey: "ForwardTable", Edits: []Edit{
+				{File: fw, Old: "\t\t\t\tcloned := route.Clone()\n\t\t\t\tcloned.LastUpdate = time.Now()\n\t\t\t\tt.routes[key][i] = cloned\n", New: "\t\t\t\tt.mu.Unlock()\n\t\t\t\tcloned := route.Clone()\n\t\t\t\tcloned.LastUpdate = time.Now()\n\t\t\t\tt.mu.Lock()\n\t\t\t\tt.routes[key][i] = cloned\n"},
+			}},
+			{Name: "round2: decision under RLock in a first pass, overwrite in a second pass (AgentTable)", ExpectRule: "C10.R1", ExpectKey: "AgentTable", Edits: []Edit{
+				{File: ag, Old: "\tt.mu.Lock()\n\tdefer t.mu.Unlock()\n\n\tkey := route.AgentID\n", New: "\tkey := route.AgentID\n\tt.mu.RLock()\n\tstale := false\n\tfor _, r := range t.routes[key] {\n\t\tif r.OriginAgent == route.OriginAgent && r.NextHop == route.NextHop {\n\t\t\tstale = !(route.Sequence > r.Sequence || (route.Sequence == r.Sequence && route.Metric < r.Metric))\n\t\t}\n\t}\n\tt.mu.RUnlock()\n\tif stale {\n\t\treturn false\n\t}\n\tt.mu.Lock()\n\tdefer t.mu.Unlock()\n"},
+				{File: ag, Old: "\t\t\tif route.Sequence > r.Sequence ||\n\t\t\t\t(route.Sequence == r.Sequence && route.Metric < r.Metric) {\n\t\t\t\tcloned := route.Clone()", New: "\t\t\t{\n\t\t\t\tcloned := route.Clone()"},
+				{File: ag, Old: "\t\t\t\treturn true\n\t\t\t}\n\t\t\treturn false // Older/worse route\n", New: "\t\t\t\treturn true\n\t\t\t}\n"},
+			}},
+			{Name: "round2: in-place refresh of sequence and metric only (AgentTable)", ExpectRule: "C10.R1", ExpectKey: "AgentTable", Edits: []Edit{
+				{File: ag, Old: "\t\t\t\tcloned := route.Clone()\n\t\t\t\tcloned.LastUpdate = time.Now()\n\t\t\t\tt.routes[key][i] = cloned\n", New: "\t\t\t\tt.routes[key][i].Metric, r.Sequence, r.LastUpdate = route.Metric, route.Sequence, time.Now()\n"},
+			}},
+			{Name: "round2: loop check moved to the new-entry branch (DomainTable)", ExpectRule: "C10.R2", ExpectKey: "DomainTable).AddRoute bucket replace", Edits: []Edit{
+				{File: d, Old: "\t// Check for routing loops (is our ID in the path?)\n\tfor _, id := range route.Path {\n\t\tif id == t.localID {\n\t\t\treturn false // Loop detected\n\t\t}\n\t}\n", New: ""},
+				{File: d, Old: "\t// New route from this origin\n\tcloned := route.Clone()\n\tcloned.LastUpdate = time.Now()\n\ttargetMap[key] = append", New: "\tfor _, id := range route.Path {\n\t\tif id == t.localID {\n\t\t\treturn false\n\t\t}\n\t}\n\tcloned := route.Clone()\n\tcloned.LastUpdate = time.Now()\n\ttargetMap[key] = append"},
+			}},
+			{Name: "round2: cleanup exemption also requires a local next hop (ForwardTable)", ExpectRule: "C10.R4", ExpectKey: "ForwardTable", Edits: []Edit{
+				{File: fw, Old: "\t\t\tif r.OriginAgent == t.localID || now.Sub(r.LastUpdate) <= maxAge {\n", New: "\t\t\tif (r.OriginAgent == t.localID && r.NextHop == t.localID) || now.Sub(r.LastUpdate) <= maxAge {\n"},
+			}},
+			{Name: "round2: disconnect also drops routes originated by the peer (AgentTable)", ExpectRule: "C10.R3", ExpectKey: "AgentTable", Edits: []Edit{
+				{File: ag, Old: "\t\t\tif r.NextHop != peerID {\n", New: "\t\t\tif r.NextHop != peerID && r.OriginAgent != peerID {\n"},
+			}},
+			{Name: "round2: lock yielded between filtering and write-back (Table)", ExpectRule: "C10.R3", ExpectKey: "routing.Table)", Edits: []Edit{
+				{File: tb, Old: "\t\tif len(filtered) == 0 {\n\t\t\tdelete(t.routes, key)\n\t\t} else {\n\t\t\tt.routes[key] = filtered\n\t\t}\n", New: "\t\tt.mu.Unlock() // let lookups in\n\t\tt.mu.Lock()\n\t\tif len(filtered) == 0 {\n\t\t\tdelete(t.routes, key)\n\t\t} else {\n\t\t\tt.routes[key] = filtered\n\t\t}\n"},
+			}},
+			{Name: "round2: handler skips the cleanup when the peer is already back", ExpectRule: "C10.R5", Edits: []Edit{
+				{File: aa, Old: "\t// Clean up routes learned from this peer\n", New: "\tif a.peerMgr.GetPeer(peerID) != nil {\n\t\treturn\n\t}\n\t// Clean up routes learned from this peer\n"},
+			}},
+			{Name: "round2 rewrite: explicit unlocks instead of defer (ForwardTable.AddRoute)", Edits: []Edit{
+				{File: fw, Old: "\tt.mu.Lock()\n\tdefer t.mu.Unlock()\n\n\tkey := route.Key\n", New: "\tt.mu.Lock()\n\n\tkey := route.Key\n"},
+				{File: fw, Old: "\t\t\t\tt.sortRoutes(key)\n\t\t\t\treturn true\n\t\t\t}\n\t\t\treturn false // Older/worse route\n", New: "\t\t\t\tt.sortRoutes(key)\n\t\t\t\tt.mu.Unlock()\n\t\t\t\treturn true\n\t\t\t}\n\t\t\tt.mu.Unlock()\n\t\t\treturn false // Older/worse route\n"},
+				{File: fw, Old: "\tt.sortRoutes(key)\n\treturn true\n}", New: "\tt.sortRoutes(key)\n\tt.mu.Unlock()\n\treturn true\n}"},
+			}},
 			// rewrites
 			{Name: "rewrite: operands swapped, !(a<=b), nested ifs", Edits: []Edit{
 				{File: tb, Old: upd, New: "\t\t\tif !(route.Sequence <= r.Sequence) ||\n\t\t\t\t(r.Sequence == route.Sequence && r.Metric > route.Metric) {\n"},
@@ -258,12 +290,17 @@ func (m *c08Model) c10Update(r *kit.Report, t *c08Table) {
 		idFields := map[*types.Var]bool{}
 		nCmp := 0
 		mixed := false
+		var cmpInstrs []ssa.Instruction
 		var collect func(f *ssa.Function, sub c08Sub, depth int)
 		collect = func(f *ssa.Function, sub c08Sub, depth int) {
 			kit.Instrs(f, func(in ssa.Instruction) {
 				if c, ok := in.(*ssa.Call); ok && depth < 2 {
 					if g, sub2, ok := c08PredCall(c, sub); ok {
+						before := nCmp
 						collect(g, sub2, depth+1)
+						if depth == 0 && nCmp > before {
+							cmpInstrs = append(cmpInstrs, in)
+						}
 					}
 					return
 				}
@@ -292,6 +329,9 @@ func (m *c08Model) c10Update(r *kit.Report, t *c08Table) {
 				switch fx {
 				case t.rf["Sequence"], t.rf["Metric"]:
 					nCmp++
+					if depth == 0 {
+						cmpInstrs = append(cmpInstrs, in)
+					}
 				default:
 					if b.Op == token.EQL || b.Op == token.NEQ {
 						idFields[fx] = true
@@ -301,7 +341,7 @@ func (m *c08Model) c10Update(r *kit.Report, t *c08Table) {
 		}
 		collect(fn, nil, 0)
 		if hdr == nil || nCmp == 0 || mixed {
-			r.Violation("C10.R1", key, pos, "a stored entry is overwritten but no comparison of the new route's Sequence/Metric with the stored entry's governs it: an older or worse route replaces a newer one")
+			r.Violation("C10.R1", key, pos, "a stored entry is overwritten but no comparison of the new route's Sequence/Metric with that entry, made in the same loop over the stored entries, governs it (decision taken elsewhere, e.g. in an earlier pass under another lock, or not at all): an older or worse route replaces a newer one")
 			continue
 		}
 		body, exit := c08LoopSuccs(hdr)
@@ -386,6 +426,66 @@ func (m *c08Model) c10Update(r *kit.Report, t *c08Table) {
 				return true
 			}
 			return v == ssa.Value(route)
+		}
+		// decision and overwrite form one critical section of the table mutex (no check-then-act)
+		li := kit.Locks(fn)
+		usesLock := false
+		for _, op := range li.Ops {
+			if op.Mutex == t.mu {
+				usesLock = true
+			}
+		}
+		for _, ev := range m.events {
+			if ev.fn != fn || !isSlotWrite(ev) {
+				continue
+			}
+			if usesLock {
+				same := false
+				for _, ci := range cmpInstrs {
+					if li.SameRegion(ci, ev.instr, t.mu) {
+						same = true
+					}
+				}
+				acq, held := li.HeldAt(ev.instr, t.mu)
+				writeLock := false
+				for _, op := range li.Ops {
+					if op.Instr == acq && op.Acquire && !op.Read {
+						writeLock = true
+					}
+				}
+				switch {
+				case !held || (acq != nil && !writeLock):
+					bad = append(bad, "the overwrite at "+p.Pos(ev.instr.Pos())+" is not made under the table's write lock")
+				case !same:
+					bad = append(bad, "the sequence/metric comparison and the overwrite at "+p.Pos(ev.instr.Pos())+" are not in one critical section of the table mutex (check, unlock, lock, act): a concurrent AddRoute can install a newer route in between, which the older one then overwrites")
+				}
+			}
+			if ev.kind == "inplace" {
+				// an in-place refresh must carry over every field the properties depend on
+				stored := map[*types.Var]bool{}
+				kit.Instrs(fn, func(in ssa.Instruction) {
+					st, ok := in.(*ssa.Store)
+					if !ok {
+						return
+					}
+					fa, ok := st.Addr.(*ssa.FieldAddr)
+					if !ok {
+						return
+					}
+					if b, ia := m.elemOfBucket(fa.X); b != nil && b.same(ev.bucket) && ia.Index == ev.index && st.Block() == ev.instr.Block() {
+						stored[kit.FieldOfAddr(fa)] = true
+					}
+				})
+				var missing []string
+				for _, need := range []string{"Metric", "Sequence", "NextHop", "Path"} {
+					if !stored[t.rf[need]] {
+						missing = append(missing, need)
+					}
+				}
+				if len(missing) > 0 {
+					bad = append(bad, "the stored entry is refreshed in place at "+p.Pos(ev.instr.Pos())+" without "+strings.Join(missing, ", ")+": the entry keeps the old value (e.g. a NextHop that no longer is the peer the route was learned from, or a Path that was never loop-checked)")
+				}
+			}
 		}
 		cells := 0
 		ords := []kit.Ordering{kit.Less, kit.Equal, kit.Greater}
@@ -607,11 +707,11 @@ func (m *c08Model) c10GuardedAt(t *c08Table, fn *ssa.Function, site ssa.Instruct
 				continue
 			}
 			if !isLocal(pr[1]) {
-				why = "the path scan at " + p.Pos(ifi.Pos()) + " compares the hops with something other than the table's own id"
+				why = "the path scan at " + p.Pos(c08LastPos(blk)) + " compares the hops with something other than the table's own id"
 				continue
 			}
 			if !c10FullScan(ia) {
-				why = "the path scan at " + p.Pos(ifi.Pos()) + " does not cover route.Path from its first to its last element"
+				why = "the path scan at " + p.Pos(c08LastPos(blk)) + " does not cover route.Path from its first to its last element"
 				continue
 			}
 			phi, _ := c08LoopIndex(ia.Index)
@@ -623,11 +723,11 @@ func (m *c08Model) c10GuardedAt(t *c08Table, fn *ssa.Function, site ssa.Instruct
 			// the match edge must not reach the write
 			reach := kit.Reach(eqSucc, nil, nil)
 			if reach[site.Block()] {
-				why = "when the local id is found in route.Path (" + p.Pos(ifi.Pos()) + ") control still reaches this write"
+				why = "when the local id is found in route.Path (" + p.Pos(c08LastPos(blk)) + ") control still reaches this write"
 				continue
 			}
 			if exit == nil || !(exit == site.Block() || exit.Dominates(site.Block())) {
-				why = "this write is not dominated by the completion of the path scan at " + p.Pos(ifi.Pos())
+				why = "this write is not dominated by the completion of the path scan at " + p.Pos(c08LastPos(blk))
 				continue
 			}
 			okCheck = true
@@ -1060,6 +1160,7 @@ func (m *c08Model) c10DecideFilter(r *kit.Report, t *c08Table, rule, rootName st
 		}
 	}
 	// write-back after the loop
+	splitLock := false
 	if flt.pred != nil {
 		avoid := map[ssa.Instruction]bool{}
 		nStore := 0
@@ -1129,11 +1230,25 @@ func (m *c08Model) c10DecideFilter(r *kit.Report, t *c08Table, rule, rootName st
 			}
 			if mu, ok := ev.instr.(*ssa.MapUpdate); ok && (mu.Value == ssa.Value(flt.acc)) {
 				done = true
+				// the bucket is read and written back in one critical section
+				li := kit.Locks(fn)
+				uses := false
+				for _, op := range li.Ops {
+					if op.Mutex == t.mu {
+						uses = true
+					}
+				}
+				if uses && !li.SameRegion(flt.acc, ev.instr, t.mu) {
+					splitLock = true
+				}
 			}
 		}
 		if !done {
 			bad = append(bad, fmt.Sprintf("when %d entries are kept the filtered bucket is not written back to (or deleted from) the map: dropped entries stay stored", n))
 		}
+	}
+	if splitLock {
+		bad = append(bad, "the bucket is filtered and written back in different critical sections of the table mutex: routes added in between are lost or removed routes resurrected")
 	}
 	okMsg := "dropped iff NextHop == peer; filtered bucket written back"
 	if rule == "C10.R4" {
